@@ -69,6 +69,15 @@ CHECKS = {
               "model tied to the code on a malformed stream comparing (type, class_name, field_name / missing / unknown); oracle: "
               "isinstance JSONWizardError, str(e) returns, independent path-based attribution for scalar positions"),
         technique='Lean 4 proof over a hand model + generated lattice + differential correspondence', ref='4 C14'),
+    'C20': dict(
+        text=("Lean theorems over an interleaving model of the lock-free lazy initialisation (fill entries, publish flag last; build, "
+              "publish with one store; scan a snapshot): for any number of threads and any schedule every finished call returns the "
+              "sequential result and the tables hold only correct entries (invariant by induction over schedules); subtype scans are "
+              "independent of concurrent cachings; the publication discipline is regenerated from the AST on every run "
+              "(C20_code_discipline); failing schedules of the broken disciplines are theorems. Tie + search: a settrace scheduler "
+              "enumerates pre-emptions at line/opcode events of library and generated code, each schedule in a forked process, "
+              "outcomes must be those of a sequential order"),
+        technique='Lean 4 proof over a hand interleaving model + discipline tables regenerated from source + controlled-schedule exploration', ref='4 C20'),
     'C06': dict(
         text=("Lean theorems about the dump-side cache state machine (per-class key cache + dumper attributes): the first use of a "
               "freshly defined family shows the specification, repeating a dump never changes it, operations on disjoint families in "
